@@ -398,7 +398,23 @@ def check(ctx):
     dval = std.get('distance') if retd == ['distance'] else (retd[0] if len(retd) == 1 else None)          # through the local or returned directly
     ctx.inst('R6', idist, 'diagonal=distance-of-intersections', dval == 'np.linalg.norm(intersection1 - intersection2)', 'sensor distance = |i1 - i2|; found %s' % dval)
     md = S.method('_calculate_mean_diagonal')
-    dg = [norm(c.args[0]) for c in ast.walk(md.node) if method_call(c, 'append') and norm(c.func.value) == 'diagonals']
+    dg = []
+    for c in ast.walk(md.node):
+        if not (method_call(c, 'append') and norm(c.func.value) == 'diagonals'):
+            continue
+        # the pairs may come from a literal table walked by a loop around the call: `for s1, s2 in ((0, 3), (1, 2))`
+        envs = [{}]
+        for lp_ in ast.walk(md.node):
+            if isinstance(lp_, ast.For) and any(x is c for b_ in lp_.body for x in ast.walk(b_)) and isinstance(lp_.iter, (ast.Tuple, ast.List)) and \
+                    isinstance(lp_.target, ast.Tuple) and all(isinstance(t, ast.Name) for t in lp_.target.elts) and \
+                    all(isinstance(e, (ast.Tuple, ast.List)) and len(e.elts) == len(lp_.target.elts) and all(isinstance(v, ast.Constant) for v in e.elts) for e in lp_.iter.elts):
+                envs = [dict(env, **{t.id: v for t, v in zip(lp_.target.elts, e.elts)}) for env in envs for e in lp_.iter.elts]
+        for env in envs:
+            class _Sub(ast.NodeTransformer):
+                def visit_Name(self, n):
+                    return env.get(n.id, n) if isinstance(n.ctx, ast.Load) else n
+            import copy as _copy
+            dg.append(norm(_Sub().visit(_copy.deepcopy(c.args[0]))))
     ctx.inst('R6', md, 'diagonal-sensor-pairs', sorted(dg) == sorted(['cls.calc_intersection_distance(vectors[0], vectors[3], bs_poses[bs_id], cf_pose)', 'cls.calc_intersection_distance(vectors[1], vectors[2], bs_poses[bs_id], cf_pose)']),
              'the two deck diagonals are sensors 0-3 and 1-2, measured with the matching base station and Crazyflie pose; found %s' % dg)
 
